@@ -297,6 +297,48 @@ impl<'tcx> Cx<'tcx> {
         o
     }
 
+    fn const_val(&mut self, cv: ConstValue, ty: Ty<'tcx>, env: TypingEnv<'tcx>, depth: usize) -> String {
+        let tcx = self.tcx;
+        let tid = self.ty_id(ty, env);
+        match cv {
+            ConstValue::Scalar(Scalar::Int(i)) => {
+                format!("[\"int\",\"{}\",{},{}]", i.to_bits_unchecked(), i.size().bytes(), tid)
+            }
+            ConstValue::Scalar(Scalar::Ptr(p, _)) => {
+                let (prov, off) = p.prov_and_relative_offset();
+                let aid = prov.alloc_id();
+                self.alloc(aid);
+                format!("[\"ptr\",{},{},{}]", aid.0, off.bytes(), tid)
+            }
+            ConstValue::ZeroSized => {
+                if let ty::FnDef(d, a) = ty.kind() {
+                    let r = Instance::try_resolve(tcx, env, *d, a);
+                    match r {
+                        Ok(Some(inst)) => {
+                            let c = self.callee_json(inst, depth);
+                            format!("[\"fn\",{},{}]", c, tid)
+                        }
+                        _ => {
+                            let p = with_no_trimmed_paths!(tcx.def_path_str_with_args(*d, a));
+                            format!("[\"fn\",{{\"k\":{},\"d\":{},\"kind\":\"unresolved\",\"cg\":[],\"tg\":[],\"local\":false,\"body\":false}},{}]", esc(&p), esc(&with_no_trimmed_paths!(tcx.def_path_str(*d))), tid)
+                        }
+                    }
+                } else {
+                    format!("[\"zst\",{}]", tid)
+                }
+            }
+            ConstValue::Slice { alloc_id, meta } => {
+                self.alloc(alloc_id);
+                format!("[\"slice\",{},{},{}]", alloc_id.0, meta, tid)
+            }
+            ConstValue::Indirect { alloc_id, offset } => {
+                self.alloc(alloc_id);
+                format!("[\"mem\",{},{},{}]", alloc_id.0, offset.bytes(), tid)
+            }
+        }
+    }
+
+
     fn alloc(&mut self, id: AllocId) {
         if !self.allocs.insert(id) {
             return;
@@ -506,44 +548,8 @@ impl<'a, 'tcx> BodyCx<'a, 'tcx> {
     }
 
     fn const_val(&mut self, cv: ConstValue, ty: Ty<'tcx>) -> String {
-        let tcx = self.cx.tcx;
-        let tid = self.cx.ty_id(ty, self.env);
-        match cv {
-            ConstValue::Scalar(Scalar::Int(i)) => {
-                format!("[\"int\",\"{}\",{},{}]", i.to_bits_unchecked(), i.size().bytes(), tid)
-            }
-            ConstValue::Scalar(Scalar::Ptr(p, _)) => {
-                let (prov, off) = p.prov_and_relative_offset();
-                let aid = prov.alloc_id();
-                self.cx.alloc(aid);
-                format!("[\"ptr\",{},{},{}]", aid.0, off.bytes(), tid)
-            }
-            ConstValue::ZeroSized => {
-                if let ty::FnDef(d, a) = ty.kind() {
-                    let r = Instance::try_resolve(tcx, self.env, *d, a);
-                    match r {
-                        Ok(Some(inst)) => {
-                            let c = self.cx.callee_json(inst, self.depth);
-                            format!("[\"fn\",{},{}]", c, tid)
-                        }
-                        _ => {
-                            let p = with_no_trimmed_paths!(tcx.def_path_str_with_args(*d, a));
-                            format!("[\"fn\",{{\"k\":{},\"d\":{},\"kind\":\"unresolved\",\"cg\":[],\"tg\":[],\"local\":false,\"body\":false}},{}]", esc(&p), esc(&with_no_trimmed_paths!(tcx.def_path_str(*d))), tid)
-                        }
-                    }
-                } else {
-                    format!("[\"zst\",{}]", tid)
-                }
-            }
-            ConstValue::Slice { alloc_id, meta } => {
-                self.cx.alloc(alloc_id);
-                format!("[\"slice\",{},{},{}]", alloc_id.0, meta, tid)
-            }
-            ConstValue::Indirect { alloc_id, offset } => {
-                self.cx.alloc(alloc_id);
-                format!("[\"mem\",{},{},{}]", alloc_id.0, offset.bytes(), tid)
-            }
-        }
+        let (env, depth) = (self.env, self.depth);
+        self.cx.const_val(cv, ty, env, depth)
     }
 
     fn operand(&mut self, op: &Operand<'tcx>) -> String {
@@ -909,6 +915,36 @@ fn collect<'tcx>(tcx: TyCtxt<'tcx>, out_path: &str) {
         items.push(format!("I\t{}\t{}", path, o));
     }
 
+    // associated constants of local inherent impls (ZERO, ONE, X, AXES, IDENTITY, ...)
+    let mut konsts: Vec<String> = Vec::new();
+    for ldid in tcx.hir_crate_items(()).definitions() {
+        let did = ldid.to_def_id();
+        if !matches!(tcx.def_kind(did), DefKind::AssocConst { .. }) {
+            continue;
+        }
+        if tcx.generics_of(did).requires_monomorphization(tcx) {
+            continue;
+        }
+        let Some(assoc) = tcx.opt_associated_item(did) else { continue };
+        let Some(imp) = assoc.impl_container(tcx) else { continue };
+        if tcx.impl_opt_trait_ref(imp).is_some() {
+            continue;
+        }
+        let self_ty = tcx.type_of(imp).instantiate_identity().skip_norm_wip();
+        let ty = tcx.type_of(did).instantiate_identity().skip_norm_wip();
+        if let Ok(cv) = tcx.const_eval_poly(did) {
+            let v = cx.const_val(cv, ty, mono_env, 0);
+            let path = with_no_trimmed_paths!(tcx.def_path_str(did));
+            konsts.push(format!(
+                "K\t{}\t{{\"name\":{},\"self_ty\":{},\"v\":{}}}",
+                path,
+                esc(assoc.name().as_str()),
+                esc(&with_no_trimmed_paths!(format!("{}", self_ty))),
+                v
+            ));
+        }
+    }
+
     let mut done: HashSet<Instance<'tcx>> = HashSet::new();
     while let Some((inst, depth)) = cx.queue.pop_front() {
         if !done.insert(inst) {
@@ -994,6 +1030,10 @@ fn collect<'tcx>(tcx: TyCtxt<'tcx>, out_path: &str) {
     }
     for m in &impls {
         out.push_str(m);
+        out.push('\n');
+    }
+    for k in &konsts {
+        out.push_str(k);
         out.push('\n');
     }
     for b in &cx.bodies {
